@@ -1,4 +1,5 @@
 import Operon.Lemmas.C20
+import Operon.Gen.GenomeTranslated
 /-!
 # C20 — immutable configuration: values change only through authorised, logged mutations
 
@@ -644,6 +645,75 @@ theorem c20_fresh_add_appends_gene (g : Genome ν) (x : Gene ν) (hfresh : findG
   have hn := findGene_none_iff.mp hfresh
   unfold addGene
   simp [hfresh, putGene_of_not_mem _ _ hn]
+
+/-! ## The model is what the source says: agreement with the machine translation of genome.py
+
+`Operon/Gen/GenomeTranslated.lean` is regenerated from `operon_ai/state/genome.py` on every run by
+`harness/vf/extract/py2lean_genome.py` (typed, fail-closed: anything outside its subset becomes
+`untranslatable "…"`).  Each theorem states that the translation of a method IS the hand-written model function the
+property theorems are about — full equality of the resulting genome, return value and callback-call counter, for every
+genome, every environment and every argument.  A change of the source that alters the authorisation logic of one of
+these methods, or leaves the subset, breaks the corresponding theorem. -/
+
+theorem c20_translation_agrees_add_gene (env : Env ν) (k : Nat) (g : Genome ν) (x : Gene ν) :
+    Tr.add_gene env k g x = .done (addGene g x).1 (addGene g x).2 k := by
+  obtain ⟨allow, cb, rate, genes, expr, log, gen, ph⟩ := g
+  cases hf : (findGene genes x.name).isSome <;> cases allow <;>
+    simp [Tr.add_gene, addGene, hf, putGeneAt_name]
+
+set_option linter.unusedSimpArgs false in
+theorem c20_translation_agrees_mutate (env : Env ν) (k : Nat) (g : Genome ν) (n : Nat) (v : ν) (r : Reason) :
+    Tr.mutate env k g n v r = mutate env k g n v r := by
+  obtain ⟨allow, cb, rate, genes, expr, log, gen, ph⟩ := g
+  unfold Tr.mutate mutate
+  cases hf : findGene genes n with
+  | none => simp
+  | some og =>
+    have hn := findGene_some_name hf
+    subst hn
+    have hp : ∀ v : ν, putGeneAt genes og.name ⟨og.name, v, og.gtype, og.required, og.defExpr⟩
+        = putGene genes { og with value := v } := fun v => putGeneAt_name genes { og with value := v }
+    cases allow <;> cases cb <;> simp [applyMut, refuseMut, hp] <;>
+      (cases env.adv _ k og.name og.value v r <;> simp [hp])
+
+set_option linter.unusedSimpArgs false in
+theorem c20_translation_agrees_rollback_mutation (env : Env ν) (k : Nat) (g : Genome ν) (n : Nat) :
+    Tr.rollback_mutation env k g n = rollback env k g n := by
+  have hpred : ∀ m : Mut ν, (m.approved && (m.gene == n)) = ((m.gene == n) && m.approved) :=
+    fun m => Bool.and_comm _ _
+  simp only [Tr.rollback_mutation, rollback, lastApproved, c20_translation_agrees_mutate, hpred]
+  cases g.log.reverse.find? (fun m => m.gene == n && m.approved) <;> simp
+
+theorem c20_translation_agrees_set_expression (env : Env ν) (k : Nat) (g : Genome ν) (n : Nat) (l : Level) :
+    Tr.set_expression env k g n l () = .done (setExpr g n l).1 (setExpr g n l).2 k := by
+  cases hf : findGene g.genes n <;> simp [Tr.set_expression, setExpr, hf]
+
+theorem c20_translation_agrees_silence_gene (env : Env ν) (k : Nat) (g : Genome ν) (n : Nat) :
+    Tr.silence_gene env k g n () = .done (setExpr g n .silenced).1 (setExpr g n .silenced).2 k := by
+  simp only [Tr.silence_gene]; exact c20_translation_agrees_set_expression env k g n .silenced
+
+theorem c20_translation_agrees_activate_gene (env : Env ν) (k : Nat) (g : Genome ν) (n : Nat) :
+    Tr.activate_gene env k g n () = .done (setExpr g n .normal).1 (setExpr g n .normal).2 k := by
+  simp only [Tr.activate_gene]; exact c20_translation_agrees_set_expression env k g n .normal
+
+/-- the child is constructed with the parent's gate settings (what `childBase` says) -/
+theorem c20_translation_agrees_replicate_child_gate (p : Genome ν) (inh : Bool) :
+    Tr.replicate_child_gate p = some ⟨(childBase p inh).allow, (childBase p inh).cb, (childBase p inh).rate⟩ := by
+  obtain ⟨h1, h2, h3⟩ := addAll_gate p.genes (emptyGenome p.allow p.cb p.rate)
+  simp only [emptyGenome] at h1 h2 h3
+  simp only [Tr.replicate_child_gate, childBase, newGenome, emptyGenome, h1, h2, h3]
+
+/-- the requested mutations of `replicate` go, one by one and in order, through the CHILD's `mutate` with reason
+    "replication_mutation" — the model's `mutateList` -/
+theorem c20_translation_agrees_replicate_mutations (env : Env ν) (d : Nat) (muts : List (Nat × ν)) :
+    ∀ (k : Nat) (c : Genome ν), Tr.replicate_mutations env d k c muts = mutateList env d k c muts := by
+  induction muts with
+  | nil => intro k c; rfl
+  | cons p rest ih =>
+    intro k c
+    obtain ⟨a, b⟩ := p
+    simp only [Tr.replicate_mutations, mutateList, c20_translation_agrees_mutate]
+    cases mutate env k c a b .replication <;> simp [ih]
 
 /-! ## Non-vacuity: concrete lineages and histories meeting the hypotheses -/
 
